@@ -3,6 +3,7 @@ import CogentModel.Model.View
 import CogentModel.Model.RichDict
 import CogentModel.Spec.PySlice
 import CogentModel.Model.TreeRich
+import CogentModel.Gen.C10Registry
 open CogentModel CogentModel.View CogentModel.RichDict
 
 def errStr10 : Err → String
@@ -65,6 +66,21 @@ def nodeRecJ (n : TreeRich.NodeRec String) : J :=
 
 def handle (cmd : String) (j : J) : Except String J :=
   match cmd with
+  | "registry" => do
+    -- the translated registry and emitted type strings, with the translated dispatch on each of them
+    let ent (e : Registry.Entry) : J := J.obj [("key", J.str (String.ofList e.key)), ("func", J.str e.func), ("module", J.str e.module)]
+    pure (J.obj [("table", J.arr (Gen.C10Registry.table.map ent)),
+      ("emitted", J.arr (Gen.C10Registry.emitted.map fun e =>
+        J.obj [("type", J.str (String.ofList e.typeStr)), ("cls", J.str e.cls), ("kind", J.str e.kind),
+               ("key", match Gen.C10Registry.dispatch Gen.C10Registry.table e.typeStr with
+                       | some x => J.str (String.ofList x.key) | none => J.null)]))])
+  | "dispatch" => do
+    -- the translated dispatch loop over a registry given by the caller (the REAL key order) on type strings
+    let keys ← (← j.get "keys").toListOf J.toStr
+    let tbl : List Registry.Entry := keys.map fun k => { key := k.toList, func := "", module := "" }
+    let ts ← (← j.get "types").toListOf J.toStr
+    pure (J.arr (ts.map fun t => match Gen.C10Registry.dispatch tbl t.toList with
+      | some x => J.str (String.ofList x.key) | none => J.null))
   | "tree_rich" => do
     -- postorder node records of a tree -> records of deserialise_tree(to_rich_dict()) + the exported dict keys
     let t ← (← j.get "nodes").toListOf parseNodeRec
